@@ -484,6 +484,11 @@ def check_closure_gluing(facts, rep):
     good = zips == {('into_iter(L)', 'Range::Range{start: 0, end: arg1.strands}')} and not sorts and apply == ['unwrap_or(get(arg1.^conn, arg2), arg2)']
     if good:
         rep.ok('E7.T10-closure-gluing', inst, 'conn = zip(bottom_edges, 0..strands); x -> conn.get(x).unwrap_or(x)')
+    elif len(zips) == 1 and not sorts and apply == ['unwrap_or(get(arg1.^conn, arg2), arg2)'] and next(iter(zips))[0] == 'into_iter(L)' and \
+            re.match(r'Range::Range\{start: (\d+), end: (len\(arg1\)|len\(arg1\.elements\)|arg1\.strands|SubWithOverflow\(arg1\.strands, \d+\)\.0|AddWithOverflow\(arg1\.strands, \d+\)\.0|\d+)\}$', next(iter(zips))[1]):
+        rep.violation('E7.T10-closure-gluing', inst,
+                      'Braid::closure pairs the bottom edges with the positions %s instead of 0..strands: zip stops at the shorter side, so for a word with fewer letters than strands (or a shifted range) some bottom edges are never identified with their top edges and the "closure" is an open tangle with the wrong component count' % next(iter(zips))[1],
+                      where=b.where())
     elif sorts:
         rep.violation('E7.T10-closure-gluing', inst, 'Braid::closure reorders the bottom edges (%s) before pairing them with the top positions: an edge is glued to the top edge of its *rank*, not of the strand position it hangs at' % sorted(sorts), where=b.where())
     else:
